@@ -405,6 +405,35 @@ pub fn es_n(max_islands: usize) -> Family {
     Family::list(out)
 }
 
+/// ES-P: run(k1) + island + run(k2) + tail: a dense run of every length 1..=12, one character the
+/// mode cannot carry, a second run of every length 1..=16 and a short foreign tail. The packing
+/// phase at which the first run is left and the space left at the end vary independently.
+pub fn es_p() -> Family {
+    let runs: Vec<&[u8]> = vec![b"*A^ ", b".A.C1.3", b"*\r>", b"A", b"a"];
+    let islands: Vec<&[u8]> = vec![&[0x80], b"a", b"~", b"A"];
+    let tails: Vec<&[u8]> = vec![b"", b"a", b"ab", &[0x80], b"1", b"{"];
+    let mut out = Vec::new();
+    for r in &runs {
+        for isl in &islands {
+            if r == isl {
+                continue;
+            }
+            for k1 in 1..=12usize {
+                for k2 in 1..=16usize {
+                    for t in &tails {
+                        let mut v: Vec<u8> = r.iter().cycle().take(k1).cloned().collect();
+                        v.extend_from_slice(isl);
+                        v.extend(r.iter().cycle().take(k2));
+                        v.extend_from_slice(t);
+                        out.push(v);
+                    }
+                }
+            }
+        }
+    }
+    Family::list(out)
+}
+
 /// Inputs named in DESIGN.md (witnesses of the defects, golden inputs of the repository's tests).
 pub fn named_inputs() -> Vec<Vec<u8>> {
     let mut v: Vec<Vec<u8>> = vec![
